@@ -10,7 +10,10 @@ EXTENDS NodeOps
 F(n, f)   == IF f \in DOMAIN n THEN n[f] ELSE ""
 Sq(n, f)  == IF f \in DOMAIN n THEN n[f] ELSE <<>>
 Sec(n, f) == IF f \in DOMAIN n THEN n[f].sec ELSE ""
-FirstPerson(n, f) == IF Sq(n, f) # <<>> THEN <<[name |-> n[f][1].name, org |-> "is_org" \in DOMAIN n[f][1]]>> ELSE <<>>
+\* an SPDX actor carries a name, the person / organization flag and an optional e-mail address ("Name (e-mail)")
+FirstPerson(n, f) == IF Sq(n, f) # <<>>
+                     THEN <<[name |-> n[f][1].name, org |-> "is_org" \in DOMAIN n[f][1], email |-> F(n[f][1], "email")]>>
+                     ELSE <<>>
 FirstOf(s) == IF s = <<>> THEN 0 ELSE s[1]
 NL(d) == d.node_list
 MetaF(d, f) == IF "metadata" \in DOMAIN d THEN F(d.metadata, f) ELSE ""
